@@ -305,7 +305,7 @@ def run(tier, seed, replay):
         return rep
     seeds = [b"\x00" + json.dumps(t).encode() for t in templates(seed, rd)[:6]] + [b"\x00{\"keys\":[{\"kty\":\"oct\",\"k\":\"AAAA\"},{\"kty\":\"x\"}]}"]
     c06.fuzz(rep, rd, seed, 5000000 if tier == "thorough" else 150000, vf.NCPU, target="d_c07", dict_words=JDICT, max_len=8192, seeds=seeds)
-    rep.evaluations -= rep.counters.get("libfuzzer_executions", 0) * 19   # c06.fuzz counts 10 verifies per input; here it is 1 load
+    rep.evaluations -= rep.counters.get("libfuzzer_executions", 0) * 21   # c06.fuzz counts 10 verifies per input; here it is 1 load
     c = rep.counters
     vf.need(rep, c.get("items_good", 0) > 200, "too few usable keys imported (positive control)")
     vf.need(rep, c.get("items_error", 0) > 200, "too few bad items observed")
